@@ -18,11 +18,11 @@ LEVEL = "proof"
 INCLUDE = ["w4s_c11"]     # w4-skel: generated control-flow skeleton of the MU loop (Props/W4SC11.v) + replay stream sk_mu
 GEN_UNITS = []
 SHARD = 8
-COQ_TARGETS = ["Props/C11.vo", "Props/C11w4.vo", "Props/C11w5.vo", "Model/C11Check.vo", "Model/C11GenCheck.vo", "Model/C11Replay.vo",
-               "Model/C11Lbfgs.vo", "Model/Harness.vo"]
-THEOREM_FILES = ["Props/C11.v", "Props/C11w4.v", "Props/C11w5.v"]
+COQ_TARGETS = ["Props/C11.vo", "Props/C11w4.vo", "Props/C11w5.vo", "Props/C11w5b.vo", "Model/C11Check.vo", "Model/C11GenCheck.vo", "Model/C11Replay.vo",
+               "Model/C11Lbfgs.vo", "Model/C11Pdnr.vo", "Model/Harness.vo"]
+THEOREM_FILES = ["Props/C11.v", "Props/C11w4.v", "Props/C11w5.v", "Props/C11w5b.v"]
 COQ_IMPORTS = ("From Coq Require Import List ZArith Bool QArith Qcanon.\n"
-               "From PV Require Import Base.Index Np.Array Model.Sparse Model.Repr Model.Harness Model.C11Check Model.C11GenCheck Model.C11Replay Model.C11Lbfgs.\n")
+               "From PV Require Import Base.Index Np.Array Model.Sparse Model.Repr Model.Harness Model.C11Check Model.C11GenCheck Model.C11Replay Model.C11Lbfgs Model.C11Pdnr.\n")
 RULE = ("count tensors <= 4x3x2 (2- to 4-way; random fill, an emptied slice, emptied slices in several modes, all-zero fibres, all-zero data, "
         "singleton modes), dense and sparse, ranks 1-3, integer / fractional guesses optionally with an all-zero row, fractional weights, "
         "guess factors F-ordered, C-ordered or strided views, dense data from a C-ordered array; algorithms mu/pdnr/pqnr x option sets "
@@ -39,8 +39,16 @@ RULE = ("count tensors <= 4x3x2 (2- to 4-way; random fill, an emptied slice, emp
         "replayed through the Qc instance of Model/C11Rows.v with the recorded gradients / line-search answers as table oracles "
         "(final tensor, KKT list, nInnerIters; traces with <= 150 (quick) / 100 (thorough) table entries); op pqnr_f1_state: the L-BFGS pair "
         "bookkeeping predicts exactly whether (and in which row) the C11-F1 assertion is raised; op lbfgs_dir: get_search_dir_pqnr called "
-        "directly vs its Qc transliteration; non-trivial = data not all zero; distinct = distinct (op,args)")
-CORRESPONDENCE_ONLY = ["damped-Newton search direction (get_search_dir_pdnr), step lengths and the line-search decisions (oracles of Model/C11Rows.v): proved "
+        "directly vs its Qc transliteration; wave 5: op mu_model runs the GENERATED MU loop (Gen/GenCpAprMu.v with the C11 kernels) in Qc side by "
+        "side: final tensor, sorted explicit weights, kktViolations, nInnerIters, nViolations, nTotalIters (and the hand model on one case per "
+        "shape); ops overspec / rerun (both calls) / sp_degenerate are recorded and replayed too, within a cost cap (tables <= 60 entries, "
+        "<= 25 for a second call); sparse holders are replayed with the indicator of their STORED subscripts (explicitly stored zeros "
+        "included); op pdnr_dir: get_search_dir_pdnr called directly (rank 1-3, 1-4 Pi columns, fixed variables, damping 2^-10..8) vs its "
+        "exact Qc transliteration; non-trivial = data not all zero; distinct = distinct (op,args)")
+CORRESPONDENCE_ONLY = ["damped-Newton search direction get_search_dir_pdnr: since wave 5 transliterated exactly (Model/C11Pdnr.v: active set, get_hessian, Gaussian "
+                       "elimination of the damped system, predicted reduction, -g fallback) and compared on direct calls (op pdnr_dir); nothing proved about it; inside "
+                       "the replay it stays a recorded oracle answer",
+                       "step lengths and the line-search decisions (oracles of Model/C11Rows.v): proved "
                        "for every oracle are non-negativity and the bookkeeping (C11_rows_nonneg, C11_rows_inner_bound, C11_proj_nonneg, and for the "
                        "executed Qc instance C11_rows_replay_nonneg); since wave 4 the PDNR/PQNR state machine is tied to the code SIDE BY SIDE: "
                        "recorded gradients and line-search answers are fed to the model as tables, everything else (zero-row patch, normalise, "
@@ -62,11 +70,20 @@ ASSUMPTIONS = ["model entries converted exactly float -> rational (signs are exa
                "state the bookkeeping model predicts; unattributed); any other exception or wrong value of a pqnr run is reported unattributed",
                "the recorder relies on the local variable names iteration / n / jj / i of tt_cp_apr_pdnr / tt_cp_apr_pqnr and on the positional signature of "
                "tt_linesearch_prowsubprob (a rename makes the check fail loudly, not silently)",
-               "replay compares at 1e-9 relative: pyttb computes the state in floats, the model in exact rationals from the same recorded oracle answers; sparse "
-               "holders with explicitly stored zeros are not replayed (their row-empty rule is 'no stored entry', the model's is 'all values zero')",
+               "replay compares at 1e-9 relative: pyttb computes the state in floats, the model in exact rationals from the same recorded oracle answers; a sparse "
+               "holder is replayed with the 0/1 indicator of its stored subscripts as the data argument (Model/C11Rows.v reads the data only through "
+               "row_empty; pyttb's sparse rule is 'no stored entry in the slice'); overspec / rerun / sp_degenerate replays only within the cost cap",
+               "MU side by side: the generated loop is run with a clock that always reads 0 (the time-limit exit is in the generated code and in the theorems, "
+               "not exercised by the stream: cp_apr's default stoptime is 1e6 s); the final component order is compared through the weight list (ties: any order)",
+               "the kernels of the generated MU loop are the hand-written executable operations of Model/C11GenMu.v (not translated): they are tied to pyttb by op "
+               "mu_model / phi_sp; the sign flip of ktensor.normalize for negative weights is not modelled (no-op on the property's non-negative models)",
                "theorems over an abstract ordered commutative ring given by Section hypotheses; division, Newton and L-BFGS steps are oracles",
                "maxiters >= 1 and maxinneriters >= 1 (with 0 the Python loops leave their index variables unbound; not covered by the property text)"]
-EXPLANATION = ("op mu_model ties the model the theorems are about to the code: its final state denotes the returned tensor and its "
+EXPLANATION = ("Wave 5: C11_gen_mu_nonneg / C11_gen_bookkeeping are proved by induction over the loops of Gen/GenCpAprMu.v (regenerated from /repo on every "
+               "run) with the kernels of Model/C11GenMu.v: an edit of the loop structure of tt_cp_apr_mu changes the generated text and breaks the proofs; "
+               "C11_gen_mu_returns / C11_gen_skeleton_returns: the generated function returns for maxiters >= 1 (any kernels); C11_gen_mu_bridge: generated loop = "
+               "hand model Model/C11Apr.v (never-expiring clock). "
+               "op mu_model ties the model the theorems are about to the code: its final state denotes the returned tensor and its "
                "KKT trace equals the reported one at 1e-9. C11_mu_nonneg: executable model of the MU sweep keeps weights/factors non-negative for any division oracle that maps "
                "non-negative inputs to non-negative outputs; C11_rows_nonneg: the PDNR/PQNR outer-loop state machine keeps them non-negative for every "
                "gradient / direction / step / fallback oracle and keeps one KKT and one inner-count entry per outer iteration, stopping early only when converged; "
@@ -85,6 +102,10 @@ EXPLANATION = ("op mu_model ties the model the theorems are about to the code: i
 # ---------------------------------------------------------------- generators
 SHAPES_Q = [(3, 2), (2, 2, 2), (4, 3, 2)]
 SHAPES_T = SHAPES_Q + [(2, 3), (4, 3), (3, 2, 2), (2, 3, 2), (1, 3, 2), (3, 3)]
+
+
+REPLAY_MULTI_CAP = 60          # overspec / rerun: a run is replayed when its recorded tables have at most this many entries (<= 8 s each)
+REPLAY_SECOND_CAP = 25         # second call of rerun: the guess is a float model (53-bit dyadic rationals), exact replay is ~10x dearer
 
 
 OVERSPEC_SHAPES = [(2, 2, 2), (1, 3, 2), (3, 2, 2), (2, 2, 1, 2), (1, 3, 2), (2, 3), (3, 1, 2)]
@@ -245,11 +266,15 @@ def gen_cases(rng, tier):
                  "opts": {"maxinneriters": rng.choice([1, 2]) if (not deep and len(shp) == 2) else 1, "kappa": rng.choice([0.01, 0.1]),
                           "kappatol": rng.choice([1e-10, 1e-3])},
                  "order": rng.choice(["sorted", "random"]), "sseed": rng.randrange(10 ** 6)}
+            a["hand"] = rep == 0          # the hand model Model/C11Apr.v too (C11_gen_mu_bridge proves it equal to the generated loop)
             cases.append(Case("mu_model", a, True))
     cases += _gen_w4(rng, big)
+    cases += _gen_w5(rng, big)
     for c in cases:          # exact-rational replay of a recorded PDNR / PQNR run: cost grows steeply with the number of recorded
-        if c.op in ("cp_apr", "pqnr_result") and c.args.get("alg") in ("pdnr", "pqnr"):      # gradients + line searches
+        if c.op in ("cp_apr", "pqnr_result", "sp_degenerate") and c.args.get("alg") in ("pdnr", "pqnr"):      # gradients + line searches
             c.args["replay_max"] = 100 if big else 150
+        if c.op in ("overspec", "rerun") and c.args.get("alg") in ("pdnr", "pqnr"):
+            c.args["replay_multi"] = REPLAY_MULTI_CAP       # per run of the case: replayed when its tables have at most this many entries
     return cases
 
 
@@ -272,6 +297,25 @@ def _gen_w4(rng, big):
             rho.append((1 / dt) if dt != 0 else (0.0 if rng.random() < 0.7 else 0.5))
         cases.append(Case("lbfgs_dir", {"m": m, "g": g, "eps": rng.choice([2.0 ** -27, 1e-8, 0.125, 0.5]), "delm": delm, "delg": delg,
                                          "rho": rho, "pos": rng.choice([0, 0, 0, rng.randrange(size)]), "iters": rng.randint(0, 4)}, True))
+    return cases
+
+
+def _gen_w5(rng, big):
+    """wave 5: get_search_dir_pdnr called directly (damped-Newton direction of the PDNR row sub-problem) on small dyadic inputs: rank 1-3,
+    1-4 columns of Pi, variables at zero with positive gradient (fixed), small / large Bertsekas tolerance, damping 2^-10 .. 8, zero upsilon
+    entries (zero counts), gradients that make the predicted reduction vanish (g_free = 0)"""
+    cases = []
+    for rep in range(120 if big else 40):
+        R = rng.choice([1, 2, 2, 3, 3])
+        J = rng.choice([1, 2, 3, 4])
+        Pi = [[rng.choice([0, 1, 1, 2, 3]) / rng.choice([1, 2, 4]) for _ in range(R)] for _ in range(J)]
+        ups = [rng.choice([0, 0, 1, 2, 5]) / rng.choice([1, 4]) for _ in range(J)]
+        m = [rng.choice([0, 0, 1, 2, 3, 5]) / rng.choice([1, 4, 16]) for _ in range(R)]
+        g = [rng.choice([-6, -3, -1, 0, 1, 2, 5]) / rng.choice([1, 4, 8]) for _ in range(R)]
+        if rng.random() < 0.1:
+            g = [abs(x) if mi == 0 else 0.0 for x, mi in zip(g, m)]
+        cases.append(Case("pdnr_dir", {"Pi": Pi, "ups": ups, "m": m, "g": g, "mu": rng.choice([2.0 ** -10, 0.25, 1.0, 8.0]),
+                                        "eps": rng.choice([2.0 ** -27, 0.125, 0.5])}, True))
     return cases
 
 
@@ -462,6 +506,14 @@ def _run(ttb, np, a, maxiters, sparse=None, init=None, trace=None):
     return M, out
 
 
+def _xsubs(ttb, np, a, sparse):
+    """stored subscripts of the sparse holder the run gets (None for a dense holder)"""
+    if not sparse:
+        return None
+    X = _mk_data(ttb, np, a, True)
+    return [[int(x) for x in row] for row in np.asarray(X.subs).reshape((-1, len(a["shape"])))] if X.nnz else []
+
+
 def _guess_floats(a):
     gden = float(a.get("gden", 1))
     wden = float(a.get("wden", 1))
@@ -538,6 +590,21 @@ def run_impl(c):
             return {"dir": _ex(np.asarray(d).ravel()), "pure": all(np.array_equal(x, y) for x, y in zip(args, snap))}
         except Exception as ex:
             return {"exc": type(ex).__name__, "msg": str(ex)[:200]}
+    if c.op == "pdnr_dir":
+        import importlib
+        import warnings
+        apr = importlib.import_module("pyttb.cp_apr")
+        try:
+            args = [np.array(a["Pi"], dtype=float), np.array(a["ups"], dtype=float), len(a["m"]), np.array(a["g"], dtype=float),
+                    np.array(a["m"], dtype=float), float(a["mu"]), float(a["eps"])]
+            snap = [np.array(x, copy=True) for x in args]
+            with warnings.catch_warnings():
+                warnings.simplefilter("ignore")
+                d, pred = apr.get_search_dir_pdnr(*args)
+            return {"dir": _ex(np.asarray(d, dtype=float).ravel()), "pred": tgen.exact(float(np.asarray(pred).ravel()[0])),
+                    "pure": all(np.array_equal(x, y) for x, y in zip(args, snap))}
+        except Exception as ex:
+            return {"exc": type(ex).__name__, "msg": str(ex)[:200]}
     if c.op == "pqnr_f1_state":
         from props import c11_trace
         tr = c11_trace.Trace()
@@ -586,9 +653,16 @@ def run_impl(c):
         runs = []
         for sparse in (False, True):
             M1 = None
+            traced = a["alg"] in ("pdnr", "pqnr") and a.get("replay_multi")
+            if traced:
+                from props import c11_trace
             try:
-                M1, out1 = _run(ttb, np, a, a["maxiters"], sparse)
+                tr = c11_trace.Trace() if traced else None
+                M1, out1 = _run(ttb, np, a, a["maxiters"], sparse, trace=tr)
                 r = _obs_result(np, a, M1, out1)
+                if tr is not None:
+                    r["trace"] = _obs_trace(np, a, tr)
+                    r["xsubs"] = _xsubs(ttb, np, a, sparse)
             except Exception as ex:
                 r = {"exc": type(ex).__name__, "msg": str(ex)[:200]}
             r["sparse"], r["maxiters"], r["variant"] = sparse, a["maxiters"], "first call"
@@ -597,8 +671,13 @@ def run_impl(c):
                 continue
             try:
                 g = _kfloats(np, M1)
-                M2, out2 = _run(ttb, np, a, a["maxiters2"], sparse, init=M1)       # M1 itself: must come back unchanged
+                tr = c11_trace.Trace() if traced else None
+                M2, out2 = _run(ttb, np, a, a["maxiters2"], sparse, init=M1, trace=tr)       # M1 itself: must come back unchanged
                 r = _obs_result(np, a, M2, out2, guess=g)
+                if tr is not None:
+                    r["trace"] = _obs_trace(np, a, tr)
+                    r["xsubs"] = _xsubs(ttb, np, a, sparse)
+                    r["guess"] = [_ex(g[0]), [[_ex(row) for row in U] for U in g[1]]]
             except Exception as ex:
                 r = {"exc": type(ex).__name__, "msg": str(ex)[:200]}
             r["sparse"], r["maxiters"], r["variant"] = sparse, a["maxiters2"], "second call, init = model returned by the first"
@@ -611,8 +690,16 @@ def run_impl(c):
                 var = dict(var)
                 mi = var.pop("maxiters")
                 try:
-                    M, out = _run(ttb, np, dict(a, opts=dict(a["opts"], **var)), mi, sparse)
+                    av = dict(a, opts=dict(a["opts"], **var))
+                    tr = None
+                    if a["alg"] in ("pdnr", "pqnr") and a.get("replay_multi"):
+                        from props import c11_trace
+                        tr = c11_trace.Trace()
+                    M, out = _run(ttb, np, av, mi, sparse, trace=tr)
                     r = _obs_result(np, a, M, out)
+                    if tr is not None:
+                        r["trace"] = _obs_trace(np, a, tr)
+                        r["xsubs"] = _xsubs(ttb, np, a, sparse)
                 except Exception as ex:
                     r = {"exc": type(ex).__name__, "msg": str(ex)[:200]}
                 r["sparse"], r["maxiters"], r["variant"] = sparse, mi, var
@@ -622,7 +709,7 @@ def run_impl(c):
         kkts, res = [], None
         tr = None
         for mi in (1, 2, 3):
-            if mi == a["maxiters"] and a["alg"] in ("pdnr", "pqnr") and c.op in ("cp_apr", "pqnr_result"):
+            if mi == a["maxiters"] and a["alg"] in ("pdnr", "pqnr") and c.op in ("cp_apr", "pqnr_result", "sp_degenerate"):
                 from props import c11_trace
                 tr = c11_trace.Trace()
                 M, out = _run(ttb, np, a, mi, trace=tr)
@@ -634,6 +721,7 @@ def run_impl(c):
         res["kkts"] = kkts
         if tr is not None:
             res["trace"] = _obs_trace(np, a, tr)
+            res["xsubs"] = _xsubs(ttb, np, a, a["sparse"])
         return res
     except Exception as ex:
         return {"exc": type(ex).__name__, "msg": str(ex)[:200]}
@@ -727,7 +815,20 @@ def _gkey(k):
     return "(" + ", ".join(str(int(x)) for x in k) + ")%nat"
 
 
-def _e_replay(a, o, dbg=False):
+def _replay_data(a, o):
+    """the data argument of the rows model: Model/C11Rows.v reads the data ONLY through row_empty (all entries of the slice are zero).
+    For a sparse holder pyttb's rule is 'no STORED entry in the slice' (cp_apr.py: sparse_indices.size == 0), whatever the stored
+    values: the replay therefore gets the 0/1 indicator of the stored subscripts of the holder actually passed (o['xsubs'], observed)"""
+    if o.get("xsubs") is None:
+        return a["data"]
+    pos = {tuple(sb): k for k, sb in enumerate(tgen.all_subs(a["shape"]))}
+    ind = [0] * len(pos)
+    for sb in o["xsubs"]:
+        ind[pos[tuple(sb)]] = 1
+    return ind
+
+
+def _e_replay(a, o, dbg=False, guess=None):
     """Model/C11Replay.v: cp_apr_rows in Qc with the recorded gradients / line-search answers as oracles, against the returned model,
     kktViolations and nInnerIters"""
     t = o["trace"]
@@ -735,7 +836,7 @@ def _e_replay(a, o, dbg=False):
         return " && false"
     if not all(_finite(x) for _, v in t["gtab"] for x in v) or not all(_finite(x) for e in t["stab"] for x in e[2] + [e[3]] + e[4]):
         return " && false"
-    gw, gf = _guess_floats(a)
+    gw, gf = guess if guess is not None else _guess_floats(a)
     G = f"(mkK {gqlist([Fraction(x) for x in gw])} [" + "; ".join(gqmat([[Fraction(x) for x in row] for row in U]) for U in gf) + "])"
     gtab = "[" + "; ".join(f"({_gkey(k)}, {gqlist(v)})" for k, v in t["gtab"]) + "]" if t["gtab"] else "(@nil (key * list Qc))"
     stab = ("[" + "; ".join(f"({_gkey(k)}, mkSE {gbool(fb)} {gqlist(d)} {gq(al)} {gqlist(phi)})" for k, fb, d, al, phi in t["stab"]) + "]"
@@ -744,7 +845,7 @@ def _e_replay(a, o, dbg=False):
     pd = a["alg"] == "pdnr"
     sec = (f"{gq(Fraction(1e-4))} {gq(Fraction(1e-8))} {op.get('maxinneriters', 10)} "
            f"{gbool(pd and op.get('inexact', True))} {gbool(not pd)} {gtab} {stab}")
-    run = f"{tgen.gqdense(a['shape'], a['data'])} {G} {a['maxiters']}"
+    run = f"{tgen.gqdense(a['shape'], _replay_data(a, o))} {G} {a['maxiters']}"
     if dbg:
         return sec, run
     return f" && rows_replay_ok {sec} tol9 {run} {_gk(o)} {gqlist(o['kkt'])} {gnlist([int(x) for x in o['inner']])}"
@@ -820,7 +921,14 @@ def coq_check(c, o):
                 if a["alg"] == "pqnr" and _known_f1(r):
                     continue                 # known finding C11-F1 (reported by op pqnr_completes)
                 return "false"
-            parts.append("(" + _e_model(a, r) + _e_objective(r) + ")")
+            e = _e_model(a, r) + _e_objective(r)
+            if "trace" in r and all(_finite(x) for x in r["kkt"] + r["inner"]) and \
+                    len(r["trace"]["gtab"]) + len(r["trace"]["stab"]) <= (min(a.get("replay_multi", 0), REPLAY_SECOND_CAP) if "guess" in r
+                                                                                   else a.get("replay_multi", 0)):
+                var = r["variant"] if isinstance(r["variant"], dict) else {}
+                av = dict(a, maxiters=r["maxiters"], opts=dict(a["opts"], **var), sparse=r["sparse"])
+                e += _e_replay(av, r, guess=r.get("guess"))
+            parts.append("(" + e + ")")
         return " && ".join(parts) if parts else None
     if c.op == "pqnr_completes":
         if "exc" not in o:
@@ -835,6 +943,12 @@ def coq_check(c, o):
         mat = lambda M: "[" + "; ".join(fr(col) for col in M) + "]"
         return (f"search_dir_ok tol9 {gq(Fraction(a['eps']))} {fr(a['m'])} {fr(a['g'])} {mat(a['delm'])} {mat(a['delg'])} {fr(a['rho'])} "
                 f"{a['pos']} {a['iters']} {gqlist(o['dir'])} && {gbool(o['pure'])}")
+    if c.op == "pdnr_dir":
+        if "exc" in o or not all(_finite(x) for x in o["dir"]) or not _finite(o["pred"]) or len(o["dir"]) != len(a["m"]):
+            return "false"
+        fr = lambda l: gqlist([Fraction(x) for x in l])
+        return (f"search_dir_pdnr_ok tol6 {gq(Fraction(a['eps']))} {gq(Fraction(a['mu']))} " + "[" + "; ".join(fr(row) for row in a["Pi"]) + "] "
+                f"{fr(a['ups'])} {fr(a['m'])} {fr(a['g'])} {gqlist(o['dir'])} {gq(o['pred'])} && {gbool(o['pure'])}")
     if c.op == "pqnr_f1_state":
         raised = _known_f1(o)
         if ("exc" in o and not raised) or not o["agree"]:
@@ -874,8 +988,7 @@ def coq_check(c, o):
     e += (f" && kkt_ok {k1} 1 && kkt_ok {k2} 2 && kkt_ok {k3} 3 && is_prefix tol9 {k1} {k2} && is_prefix tol9 {k2} {k3}"
           f" && Nat.eqb {o['nkkt']} (length {kk}) && Nat.eqb {o['ninner']} {o['nkkt']} && Nat.eqb {o['ntimes']} {o['nkkt']}")
     e += _e_bookkeeping(a, o)
-    if "trace" in o and not (a.get("sparse") and a.get("stored") is not None) and \
-            len(o["trace"]["gtab"]) + len(o["trace"]["stab"]) <= a.get("replay_max", 100):
+    if "trace" in o and len(o["trace"]["gtab"]) + len(o["trace"]["stab"]) <= a.get("replay_max", 100):
         e += _e_replay(a, o)
     return e
 
@@ -912,7 +1025,7 @@ def _e_bookkeeping(a, o):
 # ---------------------------------------------------------------- brute-force oracle
 def oracle(c, o):
     a = c.args
-    if c.op == "lbfgs_dir":
+    if c.op in ("lbfgs_dir", "pdnr_dir"):
         return None                  # a helper: no property predicate of its own (the transliteration is what is compared)
     if c.op == "pqnr_f1_state":
         if _known_f1(o):
